@@ -4,8 +4,8 @@ package c03
 
 import (
 	"fmt"
-	"strings"
 	"reflect"
+	"strings"
 	"time"
 
 	age "github.com/craterdog/go-collection-framework/v4/agent"
@@ -636,6 +636,7 @@ func units(tier string) []engine.Unit {
 		run(r, &cfg[any]{name: "Catalog[any] holding pointer keys", keys: []any{&x, &y, "k", 1}, maxSize: 9})
 	})
 	add("size-ladder", catalogLadder)
+	add("keys-not-equal-to-themselves", nanKeys)
 	return us
 }
 
